@@ -166,11 +166,26 @@ theorem eqPositions_lt {t : OType} {i : Nat} (h : i ∈ eqPositions t) : i < (po
 
 theorem cmpValues_ok (v v' : Val) : cmpValues (.ok v) (.ok v') = .ok (v == v') := rfl
 
+/-- `Equals` when the types are Equal (`sameType = true`): position by position on the denoted values -/
+theorem equalsWith_den {t t' : OType} {vs vs' : List Val} {k : Nat} (ht : TailOpt (posAttrs t) k)
+    (hk : k ≤ vs.length) (hk' : k ≤ vs'.length) :
+    equalsWith true { typ := t, values := vs } { typ := t', values := vs' } =
+      .ok ((eqPositions t).all (fun i => (den (posAttrs t) vs)[i]? == (den (posAttrs t) vs')[i]?)) := by
+  unfold equalsWith
+  simp only [if_true]
+  apply allOk_eq
+  intro i hi
+  have hlt := eqPositions_lt hi
+  obtain ⟨v, hv, hd⟩ := valueAt_den (vs := vs) ht hk hlt
+  obtain ⟨v', hv', hd'⟩ := valueAt_den (vs := vs') ht hk' hlt
+  simp only [hv, hv', hd, hd', cmpValues_ok]
+  simp
+
 theorem equals_den {t : OType} {vs vs' : List Val} {k : Nat} (ht : TailOpt (posAttrs t) k)
     (hk : k ≤ vs.length) (hk' : k ≤ vs'.length) :
     equals { typ := t, values := vs } { typ := t, values := vs' } =
       .ok ((eqPositions t).all (fun i => (den (posAttrs t) vs)[i]? == (den (posAttrs t) vs')[i]?)) := by
-  unfold equals
+  unfold equals equalsWith
   simp only [tyEq_refl, if_true]
   apply allOk_eq
   intro i hi
@@ -207,12 +222,29 @@ theorem crossCmp_eq {t t' : OType} {vs vs' : List Val} {k k' : Nat}
       simp
     · simp only [hc, Bool.false_eq_true, if_false, Bool.false_and]
 
+/-- `Equals` when the types are not Equal (`sameType = false`) -/
+theorem equalsWith_cross {t t' : OType} {vs vs' : List Val} {k k' : Nat}
+    (ht : TailOpt (posAttrs t) k) (ht' : TailOpt (posAttrs t') k') (hk : k ≤ vs.length) (hk' : k' ≤ vs'.length) :
+    equalsWith false { typ := t, values := vs } { typ := t', values := vs' } =
+      .ok (!(includesType t || includesType t') && (eqPositions t).length == (eqPositions t').length &&
+        (eqPositions t).all (crossStep t t' vs vs')) := by
+  unfold equalsWith
+  simp only [Bool.false_eq_true, if_false]
+  by_cases hi : (includesType t || includesType t') = true
+  · simp [hi]
+  · simp only [hi, Bool.false_eq_true, if_false]
+    by_cases hl : (eqPositions t).length = (eqPositions t').length
+    · simp only [hl, bne_self_eq_false, Bool.false_eq_true, if_false]
+      rw [allOk_eq (g := crossStep t t' vs vs') (fun i hmem => crossCmp_eq ht ht' hk hk' (eqPositions_lt hmem))]
+      simp
+    · simp [hl]
+
 theorem equals_cross {t t' : OType} {vs vs' : List Val} {k k' : Nat} (hne : tyEq t t' = false)
     (ht : TailOpt (posAttrs t) k) (ht' : TailOpt (posAttrs t') k') (hk : k ≤ vs.length) (hk' : k' ≤ vs'.length) :
     equals { typ := t, values := vs } { typ := t', values := vs' } =
       .ok (!(includesType t || includesType t') && (eqPositions t).length == (eqPositions t').length &&
         (eqPositions t).all (crossStep t t' vs vs')) := by
-  unfold equals
+  unfold equals equalsWith
   simp only [hne, Bool.false_eq_true, if_false]
   by_cases hi : (includesType t || includesType t') = true
   · simp [hi]
